@@ -70,7 +70,7 @@ for f in $FILES; do
       esac
     done
     if [ "$verdict" = MISSED ]; then
-      if [ $MODE = seeded ] && [ "$(jq -r '.expect_alarm // true' "$(dirname "$f")/meta.json")" = "false" ]; then verdict="NOT-ALARMED(by design, see meta.json)"; else fail=1; fi
+      if [ $MODE = seeded ] && [ "$(jq -r 'if .expect_alarm == false then "false" else "true" end' "$(dirname "$f")/meta.json")" = "false" ]; then verdict="NOT-ALARMED(by design, see meta.json)"; else fail=1; fi
     fi
     case "$verdict" in HARNESS*) fail=1;; esac
     echo "$name property=$props $verdict in ${secs}s  $sig" | tee -a "$OUT.tmp"
